@@ -33,6 +33,26 @@
 import Kopf.Lemmas.C13_Failover
 namespace Kopf.C13
 
+/-! ## "its peering object": another peering object of the same kind is not observed at all -/
+
+/-- An event of ANOTHER peering object of the same kind (`metadata.name ≠ settings.peering.name`: another peering
+    neighbourhood, whatever its name looks like) is ignored whatever it holds: no verdict, no clean, no toggle, no
+    sleep, no touch - also when its status would make `Peer()` raise or is not a mapping. Only the operator's own
+    object is "its peering object" of the property. (Whether the NAMES are compared for equality is the harness' side of
+    the tie: direct calls with names that begin / end / are spelled like the own one, and other peering objects with
+    live top-priority records beside the own one in the histories - white-box mutant m1.) -/
+theorem foreign_object_ignored (u : Int) (status : Option (List (Identity × RawEntry))) (me : Identity) (p : Int)
+    (ac : Bool) (tg : Option Bool) (now now2 : Int) :
+    processEvent u false status me p ac tg now now2 = .ok .ignored := by
+  simp [processEvent]
+
+-- ... and it is not vacuous the other way round: the same content in the own object pauses
+example : processEvent 64 true (some [("boss", .record { priority := some (.num 99999), lifetime := some (.num 3600),
+                                                          lastseen := .absent, identityKey := false })])
+            "me" 0 true (some false) 0 0
+        = .ok (.done { cleaned := [], turned := some true, paused := some true, delays := [3600 * 64], sleep := some (3600 * 64),
+                       touch := true }) := by decide
+
 /-! ## paused ⇔ a live peer of higher or equal priority -/
 
 /-- One call of `process_peering_event` on any status content that does not make it raise: the toggle
